@@ -128,6 +128,13 @@ def classify_function(ctx: Ctx, rep: Report, fn: FuncInfo, tabs):
                 # int(nan) raises ValueError, int(+-inf) raises OverflowError: 0x7F800000 / 0xFF800000 are register contents like any other
                 rep.violation("C11.R1", "int-of-float:%s" % fn.short, where, "%s: int() of an unpacked float raises OverflowError for the register contents +inf / -inf (0x7F800000, 0xFF800000): not a ValueError, the whole bulk read fails" % fn.short)
                 continue
+            if name == "len" and len(n.args) == 1:
+                bad_vals = _unsized_label_values(ctx, fn, n.args[0], tabs)
+                if bad_vals is not None:
+                    rep.check(not bad_vals, "C11.R1", "len-of-label:%s:%s" % (fn.short, norm(n.args[0])), where,
+                              "%s: len() is applied to values of label tables, all of which are strings" % fn.short,
+                              bad="%s: len(%s) raises TypeError for the label table value(s) %s: not a ValueError, the whole bulk read fails when the register selects such an entry" % (
+                                  fn.short, norm(n.args[0]), ", ".join(bad_vals[:4])))
             if name in TOTAL or last in TOTAL_METHODS or name.startswith("logger."):
                 continue
             if last in VALUEERROR_ONLY or name in VALUEERROR_ONLY:
@@ -150,6 +157,64 @@ def classify_function(ctx: Ctx, rep: Report, fn: FuncInfo, tabs):
                       bad="%s divides by %s which may be zero (%s): ZeroDivisionError" % (fn.short, norm(n.right), why))
     if not fn.is_lambda:
         pop_loops(ctx, rep, fn)
+
+
+def _label_tables(ctx: Ctx, fn: FuncInfo, recv: ast.expr, tabs, depth: int = 0) -> Optional[List[Tuple[str, dict]]]:
+    """The constant label tables a dict-valued expression of a decoder function may denote: self._labels (the rows of
+    fn's class and its subclasses), a module constant, or a parameter (followed to the arguments of every call site)."""
+    prog = ctx.prog
+    if isinstance(recv, ast.Attribute) and isinstance(recv.value, ast.Name) and recv.value.id == "self" and fn.cls is not None:
+        out = [("%s '%s'" % (r.table, r.id_), r.attrs[recv.attr]) for r in tabs.all_rows()
+               if recv.attr in r.attrs and isinstance(r.attrs[recv.attr], dict) and prog.is_subclass(r.cls, fn.cls)]
+        return out or None
+    if isinstance(recv, ast.Name) and recv.id in fn.params and depth < 3 and not any(
+            isinstance(x, ast.Name) and x.id == recv.id and isinstance(x.ctx, ast.Store) for x in ast.walk(fn.node)):
+        from ..calls import arg_for
+        out = []
+        for ct in ctx.res.callers_of(fn):
+            a = arg_for(ct.node, fn, recv.id)
+            if a is None:
+                return None
+            sub = _label_tables(ctx, ct.caller, a, tabs, depth + 1)
+            if sub is None:
+                return None
+            out.extend(sub)
+        return out or None
+    try:
+        v = prog.consteval(recv, fn.module)
+    except NotConst:
+        return None
+    return [(norm(recv), v)] if isinstance(v, dict) else None
+
+
+def _unsized_label_values(ctx: Ctx, fn: FuncInfo, arg: ast.expr, tabs) -> Optional[List[str]]:
+    """For len(<lookup in a label table>): the table values (and the lookup's default) that have no length; None when
+    the argument is not such a lookup."""
+    from ..astutil import expand_locals
+    e = expand_locals(arg, fn.node) if not fn.is_lambda else arg
+    default_missing = False
+    default = None
+    if isinstance(e, ast.Call) and isinstance(e.func, ast.Attribute) and e.func.attr == "get" and e.args:
+        recv = e.func.value
+        if len(e.args) > 1:
+            default = e.args[1]
+        else:
+            default_missing = True
+    elif isinstance(e, ast.Subscript) and not isinstance(e.slice, ast.Slice):
+        recv = e.value
+    else:
+        return None
+    tables = _label_tables(ctx, fn, recv, tabs)
+    if tables is None:
+        return None
+    bad = []
+    for label, t in tables:
+        for k, v in t.items():
+            if not isinstance(v, (str, bytes, tuple, list, dict, set, frozenset)):
+                bad.append("%s[%r] = %r" % (label, k, v))
+    if default_missing or (isinstance(default, ast.Constant) and not isinstance(default.value, (str, bytes))):
+        bad.append("the lookup's default %s" % (norm(default) if default is not None else "None"))
+    return bad
 
 
 def _unpack_guarded(fn: FuncInfo, call: ast.Call, prog=None) -> bool:
@@ -375,7 +440,27 @@ def r2(ctx: Ctx, rep: Report):
                       bad="%s.%s no longer decodes through _map_response" % (famname, mname))
 
 
-def _isolating_loop(prog, fn, call_name: str, must_catch, res=None) -> Tuple[bool, str]:
+def _key_known_present(window) -> bool:
+    """A test on this stretch of the path established that the result already holds an entry for the item
+    (``result.get(k) is None`` false, ``k in result`` true): not storing again leaves the id reported."""
+    for ev in window:
+        if ev.kind != "test":
+            continue
+        node, val = ev.node, bool(ev.data)
+        while isinstance(node, ast.UnaryOp) and isinstance(node.op, ast.Not):
+            node, val = node.operand, not val
+        if isinstance(node, ast.Compare) and len(node.ops) == 1:
+            op, l, r = node.ops[0], node.left, node.comparators[0]
+            is_get = isinstance(l, ast.Call) and isinstance(l.func, ast.Attribute) and l.func.attr == "get" and len(l.args) == 1
+            if is_get and isinstance(r, ast.Constant) and r.value is None and \
+                    ((isinstance(op, (ast.Is, ast.Eq)) and not val) or (isinstance(op, (ast.IsNot, ast.NotEq)) and val)):
+                return True
+            if (isinstance(op, ast.In) and val) or (isinstance(op, ast.NotIn) and not val):
+                return True
+    return False
+
+
+def _isolating_loop(prog, fn, call_name: str, must_catch, res=None, last_wins: bool = False) -> Tuple[bool, str]:
     """Path rule over the loop around <item>.<call_name>(...): in every iteration in which the call raises one of the
     *must_catch* classes the exception is caught, None is stored for the item and the loop goes on; in every other
     iteration the value is stored.  (Where the store sits relative to the try block does not matter.)"""
@@ -437,17 +522,25 @@ def _isolating_loop(prog, fn, call_name: str, must_catch, res=None) -> Tuple[boo
             if rp is None:
                 rp = Replay(prog, fn, p)
             is_none = [rp.sym_at(i).lin(st.value).single_term() == ("const", "None") for i, st in stores]
+            present = not last_wins and not stores and _key_known_present(window)
             if failed:
                 seen_fail += 1
                 exc = prog.exc_name(failed[0].data)
                 if not closed:
                     return False, "%s raised by %s() for one item ends the whole loop (%s)" % (exc, call_name, p.describe(6))
-                if not stores or not is_none[-1]:
+                if last_wins:
+                    continue
+                if not present and (not stores or not is_none[-1]):
                     return False, "after %s in %s() the item is not stored as None (%s)" % (exc, call_name, p.describe(6))
             else:
                 seen_ok += 1
-                if closed and (not stores or is_none[-1]):
+                if closed and not present and (not stores or is_none[-1]):
                     return False, "the decoded value is not stored into the result (%s)" % p.describe(6)
+                if closed and last_wins:
+                    i, st = stores[-1]
+                    cnode = next(ev.node for ev in window if ev.kind == "call" and is_call(ev.node))
+                    if rp.sym_at(i).lin(st.value) != rp.sym_at(i).lin(cnode):
+                        return False, "the value stored for the item is %s, not what %s() just returned (%s)" % (norm(st.value), call_name, p.describe(6))
     if not seen_fail or not seen_ok:
         return False, "no iteration of the loop around %s() could be followed" % call_name
     return True, ""
